@@ -13,16 +13,17 @@
 (*          message in any order (the adversary of the scripted runs).     *)
 (*                                                                         *)
 (* One action per step of the goroutines of the code:                      *)
-(*   start()/negotiate*Protocol : NegWriteVersion, NegRead, NegHandle,     *)
-(*                                NegRejected, NegReadErr, NegTimeout      *)
-(*   inHandler                  : InRead, InHandle, InReadErr, InRejectDone*)
-(*                                IdleTimeout                              *)
+(*   start()/negotiate*Protocol : NegWriteVersion, NegRead, NegVersion,    *)
+(*                                NegRefuse, NegReject, NegRejected,       *)
+(*                                NegIOErr, NegTimeout                     *)
+(*   inHandler                  : InRead, InSwitch, InDeliver, InReadErr,  *)
+(*                                InRejectDone, IdleTimeout                *)
 (*   outHandler                 : OutSend, OutWriteErr                     *)
 (*   user of the package        : UserPing (QueueMessage, what pingHandler *)
 (*                                does on its ticker), UserDisconnect      *)
-(* Every action is one observable event of a recorded run (a message       *)
-(* written to / completely read from the connection, a MessageFunc call,   *)
-(* the connection being closed by Disconnect), see TraceHandshake.tla.     *)
+(* Every action but InSwitch is one observable event of a recorded run (a  *)
+(* message written to / completely read from the connection, a MessageFunc *)
+(* call, the connection being closed by Disconnect), see TraceHandshake.   *)
 (*                                                                         *)
 (* Named deviations (behaviour of a defective implementation; FALSE for    *)
 (* the code the properties are claimed for):                               *)
@@ -62,7 +63,7 @@ VARIABLES role, cfgVer, adv, same,     \* the set-up (constant during a run)
           reg,                         \* [node -> set of nonces entered by GetVersionNonce]
           negpc,                       \* negotiation goroutine: "wv1" "rv" "hv" "wv2" "rej" "done" "fail"
           started,                     \* the five handler goroutines run
-          inpc,                        \* inHandler: "read" "handle" "waitrej" "exit"
+          inpc,                        \* inHandler: "read" "handle" "deliver" "waitrej" "exit"
           cur,                         \* message read and not yet handled
           outq,                        \* output queue (outputQueue / pendingMsgs / sendQueue)
           rejWait,                     \* inHandler waits for its reject to be written
@@ -142,9 +143,11 @@ StartIf(p, pc) ==
 ---------------------------------------------------------------------------
 (* start(): negotiateInboundProtocol / negotiateOutboundProtocol *)
 
-(* writeLocalVersionMsg: localVersionMsg draws the nonce, writeMessage *)
+(* writeLocalVersionMsg: localVersionMsg draws the nonce, writeMessage.  (A *)
+(* write into a connection the remote side has just closed is possible: the *)
+(* bytes are lost, the failure shows at this or at the next operation.)     *)
 NegWriteVersion(p) ==
-    /\ Honest(p) /\ negpc[p] \in {"wv1", "wv2"} /\ ~disc[p] /\ ~disc[Other(p)]
+    /\ Honest(p) /\ negpc[p] \in {"wv1", "wv2"} /\ ~disc[p]
     /\ Put(p, Msg("version", adv[p], Nonce(p)))
     /\ reg' = IF DevNoNonceReg THEN reg ELSE [reg EXCEPT ![Node(p)] = @ \cup {Nonce(p)}]
     /\ IF negpc[p] = "wv1"
@@ -195,7 +198,7 @@ NegRefuse(p) ==
 (* ... any other message: "A version message must precede all others", a    *)
 (* reject is written                                                        *)
 NegReject(p) ==
-    /\ Honest(p) /\ negpc[p] = "hv" /\ ~disc[p] /\ ~disc[Other(p)]
+    /\ Honest(p) /\ negpc[p] = "hv" /\ ~disc[p]
     /\ cur[p].k \notin {"version", "bad"}
     /\ Put(p, Msg("reject", 0, cur[p].k))
     /\ cur' = [cur EXCEPT ![p] = NoMsg]
@@ -243,24 +246,32 @@ InReadErr(p) ==
     /\ inpc' = [inpc EXCEPT ![p] = "exit"]
     /\ UNCHANGED <<setup, chan, reg, negpc, started, cur, outq, rejWait, pvars, hvars, pings, raws>>
 
-(* the switch of inHandler followed by handleMessage                        *)
-InHandle(p) ==
+(* the switch of inHandler: a second verack ends the loop (Disconnect);     *)
+(* otherwise the flags are set and a ping is answered ...                   *)
+InSwitch(p) ==
     /\ Honest(p) /\ started[p] /\ inpc[p] = "handle"
     /\ LET m == cur[p] IN
        IF m.k = "verack" /\ verAck[p]
-       THEN \* "Already received 'verack'": the loop ends, Disconnect
+       THEN \* "Already received 'verack'"
             /\ ~disc[p]
             /\ Close(p)
             /\ inpc' = [inpc EXCEPT ![p] = "exit"]
-            /\ UNCHANGED <<outq, pvars, early, late, nVerack>>
+            /\ cur' = [cur EXCEPT ![p] = NoMsg]
+            /\ UNCHANGED <<outq, pvars>>
        ELSE /\ verAck' = [verAck EXCEPT ![p] = @ \/ m.k = "verack"]
             /\ lastH' = [lastH EXCEPT ![p] = IF m.k \in {"ping", "pong"} THEN m.a ELSE @]
             /\ IF m.k = "ping" THEN Queue(p, Msg("pong", Height[p], "")) ELSE UNCHANGED outq
-            /\ Deliver(p, m)
-            /\ inpc' = [inpc EXCEPT ![p] = "read"]
-            /\ UNCHANGED <<disc, versionKnown, protoVer, advSeen, id>>
+            /\ inpc' = [inpc EXCEPT ![p] = "deliver"]
+            /\ UNCHANGED <<disc, cur, versionKnown, protoVer, advSeen, id>>
+    /\ UNCHANGED <<setup, chan, reg, negpc, started, rejWait, hvars, pings, raws>>
+
+(* ... and handleMessage passes the message to Config.MessageFunc           *)
+InDeliver(p) ==
+    /\ Honest(p) /\ started[p] /\ inpc[p] = "deliver"
+    /\ Deliver(p, cur[p])
+    /\ inpc' = [inpc EXCEPT ![p] = "read"]
     /\ cur' = [cur EXCEPT ![p] = NoMsg]
-    /\ UNCHANGED <<setup, chan, reg, negpc, started, rejWait, sentAny, readAny, pings, raws>>
+    /\ UNCHANGED <<setup, chan, reg, negpc, started, outq, rejWait, disc, pvars, sentAny, readAny, pings, raws>>
 
 (* the reject was written (or dropped): the loop ends, Disconnect           *)
 InRejectDone(p) ==
@@ -279,15 +290,16 @@ IdleTimeout(p) ==
 (* outHandler *)
 
 OutSend(p) ==
-    /\ Honest(p) /\ started[p] /\ outq[p] # <<>> /\ ~disc[p] /\ ~disc[Other(p)]
+    /\ Honest(p) /\ started[p] /\ outq[p] # <<>> /\ ~disc[p]
     /\ Put(p, Head(outq[p]))
     /\ outq' = [outq EXCEPT ![p] = Tail(@)]
     /\ rejWait' = [rejWait EXCEPT ![p] = @ /\ Head(outq[p]).k # "reject"]
     /\ UNCHANGED <<setup, reg, negpc, started, inpc, cur, disc, pvars, early, late, nVerack, readAny, pings, raws>>
 
-(* writeMessage fails (the remote side closed): Disconnect                  *)
+(* writeMessage fails (the remote side closed; the message may or may not   *)
+(* have been handed to the connection before): Disconnect                   *)
 OutWriteErr(p) ==
-    /\ Honest(p) /\ started[p] /\ outq[p] # <<>> /\ ~disc[p] /\ disc[Other(p)]
+    /\ Honest(p) /\ started[p] /\ ~disc[p] /\ disc[Other(p)]
     /\ Close(p)
     /\ rejWait' = [rejWait EXCEPT ![p] = FALSE]
     /\ UNCHANGED <<setup, chan, reg, negpc, started, inpc, cur, outq, pvars, hvars, pings, raws>>
@@ -339,7 +351,7 @@ RawClose(p) ==
 Next == \E p \in Peers :
           \/ NegWriteVersion(p) \/ NegRead(p) \/ NegIOErr(p) \/ NegVersion(p) \/ NegRefuse(p)
           \/ NegReject(p) \/ NegRejected(p) \/ NegTimeout(p)
-          \/ InRead(p) \/ InReadErr(p) \/ InHandle(p) \/ InRejectDone(p) \/ IdleTimeout(p)
+          \/ InRead(p) \/ InReadErr(p) \/ InSwitch(p) \/ InDeliver(p) \/ InRejectDone(p) \/ IdleTimeout(p)
           \/ OutSend(p) \/ OutWriteErr(p)
           \/ UserPing(p) \/ UserDisconnect(p)
           \/ \E m \in RawMsgs(p) : RawSend(p, m)
@@ -350,7 +362,7 @@ Spec == Init /\ [][Next]_vars
 \* fairness of the protocol steps (not of timers, users, raw remotes): liveness runs
 Fair == \A p \in Peers :
           /\ WF_vars(NegWriteVersion(p)) /\ WF_vars(NegRead(p)) /\ WF_vars(NegVersion(p))
-          /\ WF_vars(InRead(p)) /\ WF_vars(InHandle(p)) /\ WF_vars(OutSend(p))
+          /\ WF_vars(InRead(p)) /\ WF_vars(InSwitch(p)) /\ WF_vars(InDeliver(p)) /\ WF_vars(OutSend(p))
 FairSpec == Spec /\ Fair
 
 ---------------------------------------------------------------------------
@@ -362,7 +374,7 @@ TypeOK ==
     /\ \A p \in Peers :
          /\ role[p] \in {"out", "in", "raw"}
          /\ negpc[p] \in {"wv1", "rv", "hv", "wv2", "rej", "done", "fail"}
-         /\ inpc[p] \in {"read", "handle", "waitrej", "exit"}
+         /\ inpc[p] \in {"read", "handle", "deliver", "waitrej", "exit"}
          /\ cur[p].k \in Kinds
          /\ Len(chan[p]) <= MaxChan
          /\ late[p] \in 0..2 /\ nVerack[p] \in 0..2
